@@ -36,13 +36,13 @@ def view_digest(rec, km, tk) -> str:
 
 
 def build_record(cls, d: Path, name: str, rng: random.Random, km, tk, npatches: int, nops: int,
-                 leave_uncommitted: bool = False):
+                 leave_uncommitted: bool = False, big: bool = False):
     """A real record produced by a random history: base + npatches patches."""
     rec = cls(d / name, "w")
     view = h5lib.project(rec, km, tk)["view"]
     for k in range(npatches + 1):
         for _ in range(nops):
-            e = h5lib.gen_op(rng, view, depth=2, values=["v1", "v2", "v3", "v8"])
+            e = h5lib.gen_op(rng, view, depth=2, values=["v1", "v2", "v3", "v8"] + (["vbig"] if big else []))
             try:
                 h5lib.apply_op(rec, e, km, tk.pool)
             except Exception:
@@ -88,6 +88,7 @@ def probe_event(cls_name: str, d: Path, name: str, km, tk, what: str) -> Dict[st
     random.Random(len(what)).shuffle(files)
     ok, vw, committed, exc = try_open(CLS[cls_name], files, km, tk)
     return {"op": "probe", "what": what, "cls": cls_name, "ok": ok, "exc": exc, "disk": disk, "mfd": mfd,
+            "intact": what.startswith("intact"),     # the record as its history produced it: must be valid
             "nb": nb, "h": dict(CLOSED), "vw": vw, "timeout": False,
             "a": {"op": "probe"}, "merged_vw": "", "meta_before": "", "meta_after": "", "chain": [], "listed": [], "all_records": [], "found": [], "hmis": []}
 
@@ -117,14 +118,25 @@ def corruption_probes(job: Dict[str, Any], emit, scratch: Path, tk):
     name = "rec"
     npatches = job.get("npatches", 2)
     build_record(cls, src, name, rng, km, tk, npatches, job.get("nops", 4),
-                 leave_uncommitted=job.get("uncommitted_tail", False))
+                 leave_uncommitted=job.get("uncommitted_tail", False),
+                 big=bool(job.get("big")) and not job.get("all_bytes"))     # containers of more than 1 MiB
     # a fork of the record (same base and first patches, different last patch) and a foreign record
     fork = base / "fork"
     shutil.copytree(src, fork)
-    for dd, val in ((src, 1), (fork, 2)):
-        if not job.get("uncommitted_tail", False):
-            with cls(dd / name, "r+") as r:
-                r.attrs["forkmark"] = val
+    try:
+        for dd, val in ((src, 1), (fork, 2)):
+            if not job.get("uncommitted_tail", False):
+                with cls(dd / name, "r+") as r:
+                    r.attrs["forkmark"] = val
+    except Exception as ex:
+        # the record just built does not open again: judged like any other probe (a valid set must open)
+        emit({"t": "end", "tid": job["tid"], "ev": {**probe_event(cls_name, src, name, km, tk, "intact"), "op": "init"}})
+        emit({"t": "begin", "tid": job["tid"], "i": 1, "e": {"op": "probe", "what": "intact record, reopened"}})
+        emit({"t": "end", "tid": job["tid"], "ev": probe_event(cls_name, src, name, km, tk,
+                                                               f"intact record, reopened ({type(ex).__name__}: {str(ex)[:80]})")})
+        emit({"t": "done", "tid": job["tid"]})
+        shutil.rmtree(base, ignore_errors=True)
+        return
     foreign = base / "foreign"
     foreign.mkdir()
     build_record(cls, foreign, name, rng, km, tk, npatches + 1, 2)
